@@ -4,7 +4,7 @@ from vf import common, configs
 
 RULE = ("for each of 10 constructions (6 AEADs incl. verify-only m=NULL, secretbox x2, box x2) x every decrypt call form, sealed boxes x2, "
         "secretstream pull, 4 auth verify functions, onetimeauth verify, crypto_sign_open / verify_detached / final_verify: valid tuples "
-        "with mlen in {0,1,15,16,17,31,32,33,63,64,65,127,128,129,255,256,257} (thorough every 0..300) x adlen {0,1,16,17}; for each, "
+        "with mlen in {0,1,15,16,17,31,32,33,63,64,65,127,128,129,255,256,257} (thorough every 0..300) x adlen {0,1,16,17} (and 225 at mlen 0 and 33); for each, "
         "EVERY single-bit flip of every byte of ciphertext, tag, AD, nonce/header and key (box: sender pk and recipient sk), every "
         "truncation length (detached body and combined input incl. below ABYTES), extension by 1 and 16 bytes, AD dropped/truncated/"
         "extended. Oracle: non-zero return, reported length 0, canaries, and the output buffers of the same forged call under two "
